@@ -54,7 +54,8 @@ def table() -> dict[str, Prop]:
              assumptions=["a single attribute store / load is atomic in CPython"],
              not_decided="the interleaving semantics itself (decided is: no shared write exists that an interleaving could expose)"))
     reg(Prop("C14", "parse/render write per-call objects only, so unwinding from any callback has nothing to undo (EFF); every "
-             "@contextmanager runs its post-yield code on the exceptional edge too (CTXMGR)",
+             "@contextmanager runs its post-yield code on the exceptional edge too, and no class-based context manager's __exit__ "
+             "returns a truthy value (CTXMGR)",
              [EF.rule_eff, RR.rule_ctxmgr],
              not_decided="equality of results before and after the failed call (follows from the absence of writes; not separately shown)"))
     reg(Prop("C15", "the render phase's only write to a stream token is the image alt attribute, recomputed from the token's own "
@@ -67,7 +68,8 @@ def table() -> dict[str, Prop]:
     from .rules import render_rules as RN, url_rules as UR
     reg(Prop("C04", "escape discipline of the HTML renderer: every returned value is built from literals, escapeHtml(...) results, the "
              "literal tag vocabulary and other render methods; raw pass-through only for the two html kinds, which are pushed only "
-             "under a true test of option html; tags and attribute names are literals; every empty-tag kind has a render rule",
+             "under a true test of option html; tags and attribute names are literals; every empty-tag kind has a render rule; a "
+             "token is moved in the stream only across closers of its own pair (MOVE)",
              [RN.rule_esc, RN.rule_raw, RN.rule_vocab, RN.rule_rendex],
              assumptions=["the highlight callback returns trusted HTML (documented; excluded by the property's quantifier)"],
              not_decided="global well-nestedness of the emitted tags (follows from the pairing discipline of C02, not shown here)"))
@@ -86,9 +88,12 @@ def table() -> dict[str, Prop]:
              "delimiter list (TOKBND); every while loop has a variant that each cyclic path strictly moves, and the dispatchers step the "
              "cursor themselves when no rule matched (LOOPVAR); the nesting cap consumes its range (GUARD); line tables "
              "with their sentinel stay in lockstep (SENT); every recursive rule dispatch is capped by maxNesting (NEST); code "
-             "points are validated before chr() (CHR); a rule that reports a match has advanced the cursor, one that does not has "
+             "points are validated before chr(), and the validity predicate itself rejects every surrogate and everything above "
+             "U+10FFFF (CHR, decided over intervals); a rule that reports a match has advanced the cursor, one that does not has "
              "left it alone (PROG); no local can be read before assignment (DEF); no undocumented raise / assert in the phase "
-             "(RAISE); the CLI decodes file content leniently (CLI)",
+             "(RAISE); partial operations stay in their domain - a dict read has its key, a regex match is tested before use, "
+             "index / next cannot miss (PARTIAL); the CLI decodes file content leniently, and no decoder other than UTF-8 / ASCII "
+             "/ Latin hands back text unchecked for surrogates, so that what the CLI prints can be encoded (CLI)",
              [BN.rule_bnd, TT.rule_sent, TT.rule_nest, TT.rule_chr, TT.rule_intarg, PG.rule_prog, TT.rule_def, TT.rule_raise, TT.rule_cli],
              assumptions=["negative indices wrap in Python and cannot raise on a non-empty string: only upper bounds are obligations",
                           "endLine arguments of ParserBlock.tokenize are <= lineMax (all resolved callers pass lineMax, their own "
@@ -96,12 +101,13 @@ def table() -> dict[str, Prop]:
                           "image re-enters the inline parser on a fresh state; its depth is bounded by the label scan's skipToken guard (not checked)"],
              not_decided="totality itself: strictness of the advance of a *matching* rule in the two dispatch loops (a contract between "
                          "dispatcher and rules: decided is that a match writes the cursor, and that every other loop has a variant), "
-                         "absence of every exception class (KeyError / ValueError from int(), RecursionError inside re)"))
+                         "absence of every exception class (RecursionError inside re, TypeError from plugin-supplied values)"))
     from .rules import token_rules as TK
     reg(Prop("C02", "construction discipline of the token stream: the token constructors keep level bookkeeping (LVL); every rule and "
              "dispatcher is level-neutral on every path and open/close literals agree (PAIR); only push adds tokens / stores the "
              "level in the rule modules (PUSH); validation mode is pure (SILENT); children only on inline / image carriers (KIDS); "
-             "the placeholder kind text_special is eliminated in every list the inline parser can fill (LIFE)",
+             "the placeholder kind text_special is eliminated in every list the inline parser can fill (LIFE); two stream "
+             "positions are exchanged only across closing tokens of the moving rule's own pair (MOVE)",
              [TK.rule_lvl, TK.rule_pair, TK.rule_push, TK.rule_silent, TK.rule_kids, TK.rule_life],
              not_decided="that delimiter matching (balance_pairs) pairs correctly for every delimiter sequence, that adjacent text is "
                          "always merged, and markup equality of the retyped emphasis pairs beyond the literals (index arithmetic "
@@ -131,7 +137,8 @@ def table() -> dict[str, Prop]:
              "constants decided as languages); column frames: every tab stop outside the constructor is computed on an absolute "
              "column - on every alternative of a conditional column expression -, stores to bsCount keep it absolute, per-line marker "
              "flags in column arithmetic come from their own line, and a line-table cell used through a local is not hoisted out of a "
-             "loop that moves to other lines (FRAME)",
+             "loop that moves to other lines, nor read once before a loop over lines (FRAME); a regular expression applied by a block "
+             "rule accepts a tab wherever it accepts a space (SPACETAB)",
              [FR.rule_norm, FR.rule_frame],
              assumptions=["the regex language facts are decided by handing the extracted constant patterns to the re engine on all "
                           "strings over a three-letter alphabet up to length 5; no repository code runs"],
@@ -143,16 +150,18 @@ def table() -> dict[str, Prop]:
              "transform list only (PROV); the indent handed to getLines is a column quantity (UNIT); no Unicode-blank-sensitive "
              "predicate on a verbatim payload, and the code-span padding is removed only under the three documented tests (UBLANK); "
              "both ends of a raw source slice in a block rule derive from the line-table cells of one and the same line on every "
-             "path, so that text crossing a line boundary goes through getLines (ONELINE)",
+             "path, so that text crossing a line boundary goes through getLines (ONELINE); a markup string built by repeating the "
+             "marker has as many characters as the scan consumed (COUNT: the repetition count against the scan counter, by value "
+             "numbering); the tab stops getLines re-pads on are absolute columns of the line being cut (FRAME)",
              [PL.rule_prov, PL.rule_unit, PL.rule_ublank],
-             not_decided="column-exact indentation removal inside getLines and *counts* (the thematic break's markup is one character "
-                         "longer than the marker run: a numeric relation between a counter and a scan, not reported)"))
+             not_decided="column-exact indentation removal inside getLines beyond the frame of its tab stops, and counts other than "
+                         "the repetition-built markup (COUNT)"))
     reg(Prop("C09", "the four tables of escapable characters (escape rule, ASCII-punctuation predicate, unescapeAll, ESCAPE_CHAR) denote "
              "one set, the 32 ASCII punctuation characters; escape and entity emit the placeholder kind text_special carrying the "
              "literal (TABLES); the placeholder is turned back into text in every list the inline parser fills, image descriptions "
              "included, by an eliminator no return of which bypasses its loop and which calls itself on the children of every "
              "element (LIFE); text accumulators are never overwritten inside their loop, and table rows are cut at pipes only by the "
-             "escape-aware splitter (ACCUM)",
+             "escape-aware splitter (ACCUM); numeric character references are recognised in either case by both decoders (TABLES)",
              [PL.rule_tables, TK.rule_life, PL.rule_accum],
              not_decided="literalness in each of the seven inline contexts for every text t (behaviour of the inline rules on runtime "
                          "strings), in particular the escape handling inside link titles / destinations"))
@@ -190,7 +199,8 @@ def table() -> dict[str, Prop]:
     reg(Prop("C19", "the typographic rules write only `.content` of tokens under a `type == 'text'` fact (and, for the replacements, "
              "outside autolinks, whose bookkeeping no path can bypass), never restructure a token list or build tokens; replaceAt "
              "substitutes exactly one character and is called with the apostrophe / configured quotes; positions taken from one regex "
-             "match are translated by the same offset everywhere in a function (TYPO); the core pipeline runs "
+             "match are translated by the same offset everywhere in a function, and are applied to the text only while the searched "
+             "snapshot is current (TYPO); the core pipeline runs "
              "inline < replacements, smartquotes < text_join (ORDER); escape / entity emit text_special, never plain text (TABLES)",
              [TY.rule_typo, TY.rule_order, PL.rule_tables],
              not_decided="index bookkeeping of replaceAt for multi-character quotes (pos arithmetic), and that smartquotes leaves "
@@ -199,7 +209,8 @@ def table() -> dict[str, Prop]:
     reg(Prop("C20", "the complexity guards whose removal changes no output are present and consulted on every path: skipToken's memo "
              "(lookup dominates dispatch, stored on every exit past a miss), the backtick closer cache, the delimiter lower bounds "
              "(read key == written key, jump table used on every step), the paren-depth cap inside the destination scan, cursor-to-"
-             "end when the nesting cap is hit (GUARD); every recursive dispatch is capped by maxNesting (NEST); a block rule "
+             "end when the nesting cap is hit, the autolink scan gives up at the next `<` (GUARD); every recursive dispatch is capped "
+             "by maxNesting (NEST); a block rule "
              "consumes what it scans (SCAN); every while loop has a variant (LOOPVAR)",
              [GD.rule_guard, TT.rule_nest, GD.rule_scan],
              not_decided="the growth law itself (work per character as the input doubles) and regex backtracking inside `re`"))
@@ -239,13 +250,13 @@ NOT_APPLICABLE["C06"] = ("a metamorphic relation between the parses of two diffe
 TECHNIQUE = {
     "C20": "dominance and must-pass-through checks of the memo / cache / bound guards on per-function CFGs; structural equality "
            "of the lower-bound table's read and write keys; copy-origin (reaching definitions) analysis of the line cursor "
-           "against the lookahead cursor; loop-variant check of every while loop",
+           "against the lookahead cursor; loop-variant check of every while loop; exit-condition check of the autolink scan",
     "C18": "enumeration of every option read into a key -> reader table checked against the documented readers over the call "
            "graph; type-based closure check of the inline phase; iteration-form and must-pass-through checks of the core rules' "
            "loops over the block stream; write-effect classification",
     "C19": "who-may-write analysis of the typographic rule modules with predicate dominance (type == 'text', autolink counter) "
            "over per-function CFGs; must-pass-through check of the autolink bookkeeping; sibling agreement of match-position "
-           "translations; rule-table order check",
+           "translations; must-equal dataflow between the searched snapshot and the rewritten text; rule-table order check",
     "C16": "alias-chain check of the env object over the resolved call graph; reaching-definition check that every reference-table "
            "key is a normalizeReference result; predicate dominance of the first-wins guard; transform-chain recognition of the "
            "label normaliser; sibling agreement of the three destination / title consumers; one-line check of raw source slices",
@@ -254,14 +265,16 @@ TECHNIQUE = {
            "facade's fan-out and of the option accessors",
     "C08": "provenance (taint-style) analysis over reaching definitions with an allowed-transform grammar; unit (column vs "
            "character) typing of getLines arguments; predicate-dominance check of the padding strip; reaching-definition / "
-           "value-numbering check that both ends of a source slice belong to one line",
+           "value-numbering check that both ends of a source slice belong to one line; value-numbering relation between a "
+           "repetition count and the scan counter; dimension check of getLines' tab stops",
     "C09": "set equality of character tables extracted from literals and regex ASTs; traversal-coverage analysis of the "
            "placeholder eliminator (coverage, totality, closure under children); accumulator-overwrite and escape-unaware-"
-           "operation lints",
+           "operation lints; regex-language probes of the numeric-reference patterns",
     "C17": "forward dataflow of normalisation facts (no-CRLF / no-CR / no-NUL) through the normalize rule; regex-language "
            "decision of the extracted constants; dimension (absolute vs relative column) check of all tab-stop arithmetic and "
            "bsCount stores (every alternative of conditional expressions); per-iteration definite assignment of the marker "
-           "flags; stale-hoist check of line-table cells (on the normal form of the block-rule modules, sa/inline.py)",
+           "flags; stale-hoist check of line-table cells (on the normal form of the block-rule modules, sa/inline.py); regex-AST "
+           "lint: space accepted without tab",
     "C07": "value numbering with symbolic entry values (context fields and line-table cells restored at every return, "
            "co-inductive over the rule set); must-pass-through / dominance checks for the freshness of tight and parentType; "
            "sibling lockstep of the save lists; the block-rule modules are first brought to a normal form by behaviour-"
@@ -271,11 +284,14 @@ TECHNIQUE = {
            "cursor <= lineMax contract, assumed co-inductively after each dispatch and validated at every call site",
     "C02": "typestate (flag valuation x level offset) over per-function CFGs with co-inductive callee summaries; value numbering "
            "of the push bodies specialised on the nesting literal; literal-agreement and who-may-write queries; dominance of "
-           "`not silent` via predicate dataflow; traversal-coverage analysis of the placeholder eliminator",
+           "`not silent` via predicate dataflow; traversal-coverage analysis of the placeholder eliminator; guard check of the loop "
+           "that decides how far a token is moved",
     "C01": "zone (difference-bound) dataflow over per-function CFGs for index bounds with validated entry contracts; value "
            "numbering with symbolic entry values for cursor progress / restoration; definite-assignment dataflow with flag "
            "correlation (origin classes); loop-variant check of every while loop (zone facts against a ghost snapshot of the "
-           "iteration start, must-pass-through for the dispatcher fallback); sibling lockstep and who-may-raise queries",
+           "iteration start, must-pass-through for the dispatcher fallback); sibling lockstep and who-may-raise queries; "
+           "must-dataflow of guard facts (key present / match tested) with two-literal disjunctions for the partial operations; "
+           "interval evaluation of the code-point validity predicate; codec classification of every decoder call",
     "C04": "taint-style decomposition of renderer return values over reaching definitions; dominance of the html-option test "
            "via predicate dataflow; literal-vocabulary check of all token construction sites",
     "C05": "forward dataflow over per-function CFGs with a sanitizer lattice (Const/Env/NormChecked/NormUnchecked/Raw); "
@@ -286,7 +302,7 @@ TECHNIQUE = {
     "C13": "write-effect classification (no shared writes) plus a CFG reachability check that nothing mutates the chain cache "
            "after its publication",
     "C14": "write-effect classification plus CFG comparison of the normal and the exceptional successor sets of every yield in a "
-           "@contextmanager",
+           "@contextmanager; return-value check of every __exit__",
     "C15": "effect analysis of the render phase restricted to Token-typed receivers; freshness (copy) check of scratch tokens",
     "C11": "typestate analysis over per-method CFGs with exceptional edges and interprocedural method summaries; "
            "who-may-write effect query; truth-table simulation of the chain-compilation loop",
